@@ -32,9 +32,21 @@ type tierSpec struct {
 	TimeoutMs    int   `json:"solver_timeout_ms"`
 	Validate     int   `json:"validate_paths"`
 	CrossSolver  string `json:"cross_solver"`
+	MaxWallSec   int    `json:"max_wall_s"`
+}
+
+type unitSpec struct {
+	Pkg       string            `json:"pkg"`
+	Files     []string          `json:"files"`
+	Overrides map[string]string `json:"overrides"`
+	ExtraPkgs []string          `json:"extra_pkgs"`
+	NoNative  bool              `json:"no_native"`
+	NativeRetries int           `json:"native_retries"`
 }
 
 type spec struct {
+	Units      []unitSpec          `json:"units"`
+	NativeRetries int              `json:"native_retries"`
 	Property   string              `json:"property"`
 	Pkg        string              `json:"pkg"` // directory below utils/, e.g. "safecast"
 	Files      []string            `json:"files"`
@@ -145,6 +157,31 @@ type evidence struct {
 	Violations int                    `json:"violations"`
 }
 
+type accum struct {
+	paths, completed, infeasible int
+	steps, decisions             int64
+	queries, sat, unsat, unknown int
+	solverNs                     int64
+	validated, valMismatch       int
+	violLines                    []string
+	knownLines                   []string
+	samples                      []interface{}
+	funcs                        map[string]int64
+	assertsChecked               map[string]int
+	unsupportedAll               map[string]int
+	knownSeen                    map[string]int
+	confirmedViol                int
+	machineryFail                []string
+	names                        []string
+	loadSec                      float64
+	crossNotes                   []string
+	overrides                    map[string]string
+}
+
+func (a *accum) fail(format string, args ...interface{}) {
+	a.machineryFail = append(a.machineryFail, fmt.Sprintf(format, args...))
+}
+
 func check(id, tier string, rest []string) int {
 	t0 := time.Now()
 	filter := ""
@@ -163,7 +200,135 @@ func check(id, tier string, rest []string) int {
 			seed = n
 		}
 	}
-	ov := overlayFiles(id, s)
+	units := s.Units
+	if len(units) == 0 {
+		units = []unitSpec{{Pkg: s.Pkg, Files: s.Files, Overrides: s.Overrides, ExtraPkgs: s.ExtraPkgs, NoNative: s.NoNative, NativeRetries: s.NativeRetries}}
+	}
+	outDir := filepath.Join(verifRoot, "out", id)
+	os.RemoveAll(outDir)
+	os.MkdirAll(outDir, 0o755)
+	acc := &accum{funcs: map[string]int64{}, assertsChecked: map[string]int{}, unsupportedAll: map[string]int{}, knownSeen: map[string]int{}, overrides: map[string]string{}}
+	solverUsed := firstNonEmpty(os.Getenv("GOSYM_SOLVER"), s.Solver)
+	for _, u := range units {
+		if rc := runUnit(id, tier, s, ts, u, seed, filter, outDir, acc); rc != 0 {
+			return rc
+		}
+	}
+	if len(acc.names) == 0 {
+		fmt.Fprintln(os.Stderr, "gosym: no harness functions found with prefix", s.Prefix)
+		return 2
+	}
+
+	// function inventory
+	type fc struct {
+		Name  string `json:"name"`
+		Calls int64  `json:"calls"`
+	}
+	var repoFns, depFns []fc
+	stdN := 0
+	for f, n := range acc.funcs {
+		switch {
+		case strings.Contains(f, "zz_verif") || strings.Contains(f, ".Verif") || strings.Contains(f, ".v"):
+		case strings.Contains(f, modPath):
+			repoFns = append(repoFns, fc{strings.ReplaceAll(f, modPath+"/", ""), n})
+		default:
+			first := strings.TrimLeft(f, "(*")
+			if k := strings.Index(first, "/"); k >= 0 {
+				first = first[:k]
+			}
+			if strings.Contains(first, ".") && strings.Contains(f, "/") {
+				depFns = append(depFns, fc{f, n})
+			} else {
+				stdN++
+			}
+		}
+	}
+	sort.Slice(repoFns, func(a, b int) bool { return repoFns[a].Calls > repoFns[b].Calls })
+	sort.Slice(depFns, func(a, b int) bool { return depFns[a].Calls > depFns[b].Calls })
+	if len(repoFns) > 80 {
+		repoFns = repoFns[:80]
+	}
+	if len(depFns) > 30 {
+		depFns = depFns[:30]
+	}
+
+	level := s.Level
+	if level == "" {
+		level = "model_checking"
+	}
+	if len(acc.samples) == 0 {
+		acc.samples = append(acc.samples, map[string]interface{}{"note": "no completed path sampled"})
+	}
+	ev := evidence{
+		PropertyID: id, Tier: tier, Seed: seed, Level: level, WallS: time.Since(t0).Seconds(), Violations: acc.confirmedViol,
+		Assumptions: append(append([]string{}, s.Assumptions...), prefixAll("stub: ", s.Stubs)...),
+		Coverage: map[string]interface{}{
+			"states":                        acc.completed,
+			"transitions":                   acc.steps,
+			"traces_validated_against_impl": acc.validated,
+			"samples":                       acc.samples,
+			"evaluations":                   acc.paths,
+			"distinct_nontrivial":           acc.completed,
+			"rule":                          "one evaluation = one symbolic path (equivalence class of inputs driving the code down the same branches) explored by DFS over solver-checked branch decisions; a path is non-trivial when it ran to completion (or to a failed assertion) under a satisfiable path condition",
+			"exhaustive":                    len(acc.machineryFail) == 0,
+			"harnesses":                     acc.names,
+			"paths_total":                   acc.paths,
+			"paths_completed":               acc.completed,
+			"paths_infeasible":              acc.infeasible,
+			"decisions":                     acc.decisions,
+			"assertions_checked":            acc.assertsChecked,
+			"queries":                       acc.queries,
+			"queries_sat":                   acc.sat,
+			"queries_unsat":                 acc.unsat,
+			"queries_unknown":               acc.unknown,
+			"solver_s":                      float64(acc.solverNs) / 1e9,
+			"solver":                        solverName(solverUsed),
+			"functions_encoded_repo":        repoFns,
+			"functions_encoded_deps":        depFns,
+			"functions_encoded_stdlib":      stdN,
+			"bounds":                        s.Bounds,
+			"outside_claim":                 s.Outside,
+			"overrides":                     acc.overrides,
+			"unsupported_aborts":            acc.unsupportedAll,
+			"known_findings_seen":           acc.knownSeen,
+			"encoding_mismatches":           acc.valMismatch,
+			"machinery_failures":            acc.machineryFail,
+			"load_s":                        acc.loadSec,
+			"cross_solver":                  strings.Join(acc.crossNotes, "; "),
+		},
+	}
+	os.MkdirAll(filepath.Join(verifRoot, "evidence"), 0o755)
+	eb, _ := json.MarshalIndent(ev, "", " ")
+	if err := os.WriteFile(filepath.Join(verifRoot, "evidence", id+".json"), eb, 0o644); err != nil {
+		fmt.Fprintln(os.Stderr, "gosym:", err)
+		return 2
+	}
+
+	for _, l := range acc.knownLines {
+		fmt.Println(l)
+	}
+	for _, l := range acc.violLines {
+		fmt.Println(l)
+	}
+	fmt.Printf("gosym: %s %s: harnesses=%d paths=%d completed=%d queries=%d (unsat %d, sat %d) solver=%.1fs validated=%d wall=%.1fs\n",
+		id, tier, len(acc.names), acc.paths, acc.completed, acc.queries, acc.unsat, acc.sat, float64(acc.solverNs)/1e9, acc.validated, time.Since(t0).Seconds())
+	if len(acc.violLines) > 0 {
+		return 1
+	}
+	if len(acc.machineryFail) > 0 {
+		for _, m := range acc.machineryFail {
+			fmt.Fprintln(os.Stderr, "gosym: INCONCLUSIVE:", m)
+		}
+		return 2
+	}
+	return 0
+}
+
+func runUnit(id, tier string, s *spec, ts tierSpec, u unitSpec, seed int64, filter, outDir string, acc *accum) int {
+	us := *s
+	us.Pkg, us.Files, us.Overrides, us.ExtraPkgs, us.NoNative = u.Pkg, u.Files, u.Overrides, u.ExtraPkgs, u.NoNative
+	sp := &us
+	ov := overlayFiles(id, sp)
 	overlay := map[string][]byte{}
 	for virt, real := range ov {
 		b, err := os.ReadFile(real)
@@ -174,17 +339,18 @@ func check(id, tier string, rest []string) int {
 		overlay[virt] = b
 	}
 	cfg := &interp.Config{
-		Dir:       repoModule,
-		Patterns:  append([]string{"./" + s.Pkg, "./zz_verif/verif"}, s.ExtraPkgs...),
-		Overlay:   overlay,
-		Env:       goEnv(),
-		Solver:    firstNonEmpty(os.Getenv("GOSYM_SOLVER"), s.Solver),
-		TimeoutMs: ts.TimeoutMs,
-		Seed:      seed,
-		SampleN:   ts.Validate,
-		MaxPaths:  ts.MaxPaths,
-		Verbose:   os.Getenv("GOSYM_VERBOSE") != "",
-		Trace:     os.Getenv("GOSYM_TRACE") != "",
+		Dir:        repoModule,
+		Patterns:   append([]string{"./" + sp.Pkg, "./zz_verif/verif"}, sp.ExtraPkgs...),
+		Overlay:    overlay,
+		Env:        goEnv(),
+		Solver:     firstNonEmpty(os.Getenv("GOSYM_SOLVER"), s.Solver),
+		TimeoutMs:  ts.TimeoutMs,
+		Seed:       seed,
+		SampleN:    ts.Validate,
+		MaxPaths:   ts.MaxPaths,
+		MaxWallSec: ts.MaxWallSec,
+		Verbose:    os.Getenv("GOSYM_VERBOSE") != "",
+		Trace:      os.Getenv("GOSYM_TRACE") != "",
 	}
 	if tier == "thorough" {
 		cfg.Tier = 1
@@ -210,12 +376,14 @@ func check(id, tier string, rest []string) int {
 		fmt.Fprintln(os.Stderr, "gosym: load:", err)
 		return 2
 	}
-	pkgPath := modPath + "/" + s.Pkg
-	for target, hf := range s.Overrides {
+	acc.loadSec += prog.LoadSec
+	pkgPath := modPath + "/" + sp.Pkg
+	for target, hf := range sp.Overrides {
 		if err := prog.RegisterOverride(target, pkgPath, hf); err != nil {
 			fmt.Fprintln(os.Stderr, "gosym:", err)
 			return 2
 		}
+		acc.overrides[target] = hf
 	}
 	all := prog.Harnesses(pkgPath, s.Prefix)
 	var names []string
@@ -236,53 +404,43 @@ func check(id, tier string, rest []string) int {
 		}
 	}
 	if len(names) == 0 {
-		fmt.Fprintln(os.Stderr, "gosym: no harness functions found with prefix", s.Prefix)
-		return 2
+		return 0
 	}
-	fmt.Fprintf(os.Stderr, "gosym: %s %s: loaded in %.1fs, %d harnesses\n", id, tier, prog.LoadSec, len(names))
-
-	outDir := filepath.Join(verifRoot, "out", id)
-	os.RemoveAll(outDir)
-	os.MkdirAll(outDir, 0o755)
+	acc.names = append(acc.names, names...)
+	fmt.Fprintf(os.Stderr, "gosym: %s %s: %s loaded in %.1fs, %d harnesses\n", id, tier, sp.Pkg, prog.LoadSec, len(names))
 
 	results := prog.ExploreAll(pkgPath, names)
 	if cfg.Verbose {
 		for _, r := range results {
-			fmt.Fprintf(os.Stderr, "  %s: paths=%d completed=%d infeasible=%d viol=%d known=%d unsupported=%d bound=%d solverfail=%d queries=%d solver=%.1fs max=%.1fs wall=%.1fs\n",
+			fmt.Fprintf(os.Stderr, "  %s: paths=%d completed=%d infeasible=%d viol=%d known=%d unsupported=%d bound=%d solverfail=%d queries=%d solver=%.1fs wall=%.1fs\n",
 				r.Harness, r.Paths, r.Completed, r.Infeasible, len(r.Violations), len(r.Known), len(r.Unsupported), len(r.BoundHits), len(r.SolverFail),
-				r.Solver.Queries, float64(r.Solver.SolverNs)/1e9, float64(r.Solver.MaxNs)/1e9, r.WallSec)
+				r.Solver.Queries, float64(r.Solver.SolverNs)/1e9, r.WallSec)
 		}
 	}
 
 	// ---- cross-check with a second solver (thorough tier) ----
-	crossNote := ""
-	var crossFail []string
 	if ts.CrossSolver != "" && ts.CrossSolver != cfg.Solver {
 		prog.SetSolver(ts.CrossSolver)
 		t1 := time.Now()
 		res2 := prog.ExploreAll(pkgPath, names)
+		nd := 0
 		for k, r := range results {
 			r2 := res2[k]
 			if len(r.Violations) != len(r2.Violations) || len(r.Known) != len(r2.Known) || r.Completed != r2.Completed || len(r2.SolverFail) > 0 {
-				crossFail = append(crossFail, fmt.Sprintf("%s: solvers disagree (%s: completed=%d violations=%d known=%d; %s: completed=%d violations=%d known=%d solverfail=%d)",
-					r.Harness, solverName(cfg.Solver), r.Completed, len(r.Violations), len(r.Known), solverName(ts.CrossSolver), r2.Completed, len(r2.Violations), len(r2.Known), len(r2.SolverFail)))
+				nd++
+				acc.fail("%s: solvers disagree (%s: completed=%d violations=%d known=%d; %s: completed=%d violations=%d known=%d solverfail=%d)",
+					r.Harness, solverName(cfg.Solver), r.Completed, len(r.Violations), len(r.Known), solverName(ts.CrossSolver), r2.Completed, len(r2.Violations), len(r2.Known), len(r2.SolverFail))
 			}
 		}
-		crossNote = fmt.Sprintf("all %d harnesses re-explored with %s in %.1fs: %d disagreement(s)", len(names), solverName(ts.CrossSolver), time.Since(t1).Seconds(), len(crossFail))
+		acc.crossNotes = append(acc.crossNotes, fmt.Sprintf("%s: all %d harnesses re-explored with %s in %.1fs: %d disagreement(s)", sp.Pkg, len(names), solverName(ts.CrossSolver), time.Since(t1).Seconds(), nd))
 		prog.SetSolver(cfg.Solver)
 	}
 
 	// ---- native side: build the replay binary once ----
-	nat := &native{id: id, spec: s, overlay: ov, harnesses: all, tier: cfg.Tier}
+	nat := &native{id: id, spec: sp, overlay: ov, harnesses: all, tier: cfg.Tier, retries: u.NativeRetries}
 	defer nat.cleanup()
-	machineryFail := []string{}
-	fail := func(format string, a ...interface{}) {
-		machineryFail = append(machineryFail, fmt.Sprintf(format, a...))
-	}
+	fail := acc.fail
 
-	for _, c := range crossFail {
-		fail("%s", c)
-	}
 	known := loadKnown()
 	knownListed := map[string]knownFinding{}
 	for _, k := range known {
@@ -290,41 +448,25 @@ func check(id, tier string, rest []string) int {
 			knownListed[k.ID] = k
 		}
 	}
-
-	var (
-		paths, completed, infeasible int
-		steps, decisions             int64
-		queries, sat, unsat, unknown int
-		solverNs                     int64
-		validated, valMismatch       int
-		violLines                    []string
-		knownLines                   []string
-		samples                      []interface{}
-		funcs                        = map[string]int64{}
-		assertsChecked               = map[string]int{}
-		unsupportedAll               = map[string]int{}
-		knownSeen                    = map[string]int{}
-		confirmedViol                int
-	)
 	for _, r := range results {
-		paths += r.Paths
-		completed += r.Completed
-		infeasible += r.Infeasible
-		steps += r.Steps
-		decisions += r.Decisions
-		queries += r.Solver.Queries
-		sat += r.Solver.Sat
-		unsat += r.Solver.Unsat
-		unknown += r.Solver.Unknown
-		solverNs += r.Solver.SolverNs
+		acc.paths += r.Paths
+		acc.completed += r.Completed
+		acc.infeasible += r.Infeasible
+		acc.steps += r.Steps
+		acc.decisions += r.Decisions
+		acc.queries += r.Solver.Queries
+		acc.sat += r.Solver.Sat
+		acc.unsat += r.Solver.Unsat
+		acc.unknown += r.Solver.Unknown
+		acc.solverNs += r.Solver.SolverNs
 		for f, n := range r.Funcs {
-			funcs[f] += n
+			acc.funcs[f] += n
 		}
 		for a, n := range r.Asserts {
-			assertsChecked[r.Harness+"/"+a] += n
+			acc.assertsChecked[r.Harness+"/"+a] += n
 		}
 		for m, n := range r.Unsupported {
-			unsupportedAll[r.Harness+": "+m] += n
+			acc.unsupportedAll[r.Harness+": "+m] += n
 		}
 		for m, n := range r.BoundHits {
 			fail("%s: bound exceeded on %d path(s): %s", r.Harness, n, m)
@@ -333,7 +475,7 @@ func check(id, tier string, rest []string) int {
 			fail("%s: solver inconclusive on %d path(s): %s", r.Harness, n, m)
 		}
 		if r.Truncated {
-			fail("%s: path limit reached (%d)", r.Harness, cfg.MaxPaths)
+			fail("%s: path or time limit reached (max_paths=%d max_wall_s=%d)", r.Harness, cfg.MaxPaths, cfg.MaxWallSec)
 		}
 		if r.Completed == 0 {
 			fail("%s: no path completed (vacuous)", r.Harness)
@@ -345,8 +487,8 @@ func check(id, tier string, rest []string) int {
 			fail("%s: unsupported construct on %d path(s): %s", r.Harness, n, m)
 		}
 		// translator validation on sampled completed paths
-		if !s.NoNative {
-			for k, sm := range r.Samples {
+		for k, sm := range r.Samples {
+			if !sp.NoNative {
 				rp := filepath.Join(outDir, fmt.Sprintf("%s-sample%d.replay.json", r.Harness, k))
 				nat.writeReplay(rp, r.Harness, sm.Inputs)
 				out, err := nat.run(rp)
@@ -356,21 +498,15 @@ func check(id, tier string, rest []string) int {
 				}
 				ok, why := compareNative(out, sm.Observes, sm.FailsAll)
 				if ok {
-					validated++
+					acc.validated++
 					os.Remove(rp)
 				} else {
-					valMismatch++
+					acc.valMismatch++
 					fail("%s: ENCODING-MISMATCH on %s: %s", r.Harness, rp, why)
 				}
-				if len(samples) < 6 && k < 2 {
-					samples = append(samples, map[string]interface{}{"harness": r.Harness, "inputs": sm.Inputs, "path_condition": sm.PCSample, "observed": sm.Observes, "decisions": sm.Decisions})
-				}
 			}
-		} else {
-			for k, sm := range r.Samples {
-				if len(samples) < 6 && k < 2 {
-					samples = append(samples, map[string]interface{}{"harness": r.Harness, "inputs": sm.Inputs, "path_condition": sm.PCSample, "decisions": sm.Decisions})
-				}
+			if len(acc.samples) < 8 && k < 2 {
+				acc.samples = append(acc.samples, map[string]interface{}{"harness": r.Harness, "inputs": sm.Inputs, "path_condition": sm.PCSample, "observed": sm.Observes, "decisions": sm.Decisions})
 			}
 		}
 		// known findings
@@ -378,25 +514,25 @@ func check(id, tier string, rest []string) int {
 			v := r.KnownSample[kid]
 			rp := filepath.Join(outDir, fmt.Sprintf("%s-known-%s.replay.json", r.Harness, kid))
 			nat.writeReplay(rp, r.Harness, v.Inputs)
-			confirmed := s.NoNative
-			if !s.NoNative {
-				out, err := nat.run(rp)
+			confirmed := sp.NoNative
+			if !sp.NoNative {
+				ok, err := nat.confirms(rp, v.AssertID)
 				if err != nil {
 					fail("%s: native replay of known finding failed: %v", r.Harness, err)
 					continue
 				}
-				confirmed = nativeFailed(out, v.AssertID)
+				confirmed = ok
 			}
 			if !confirmed {
 				fail("%s: counterexample for %s (%s) did not reproduce natively: %s", r.Harness, v.AssertID, kid, rp)
 				continue
 			}
 			if kf, listed := knownListed[kid]; listed {
-				knownSeen[kid] += n
-				knownLines = append(knownLines, fmt.Sprintf("KNOWN-FINDING: property=%s %s: %s (harness %s, assertion %s, %d path(s); replay=%s)", id, kid, kf.What, r.Harness, v.AssertID, n, rp))
+				acc.knownSeen[kid] += n
+				acc.knownLines = append(acc.knownLines, fmt.Sprintf("KNOWN-FINDING: property=%s %s: %s (harness %s, assertion %s, %d path(s); replay=%s)", id, kid, kf.What, r.Harness, v.AssertID, n, rp))
 			} else {
-				confirmedViol++
-				violLines = append(violLines, fmt.Sprintf("VIOLATION property=%s replay=%s", id, rp))
+				acc.confirmedViol++
+				acc.violLines = append(acc.violLines, fmt.Sprintf("VIOLATION property=%s replay=%s", id, rp))
 				fmt.Fprintf(os.Stderr, "  violation (region %s not listed as known): %s assertion %s inputs=%v\n", kid, r.Harness, v.AssertID, v.Inputs)
 			}
 		}
@@ -404,131 +540,28 @@ func check(id, tier string, rest []string) int {
 		for k, v := range r.Violations {
 			rp := filepath.Join(outDir, fmt.Sprintf("%s-violation%d.replay.json", r.Harness, k))
 			nat.writeReplay(rp, r.Harness, v.Inputs)
-			if s.NoNative {
-				confirmedViol++
-				violLines = append(violLines, fmt.Sprintf("VIOLATION property=%s replay=%s", id, rp))
-				fmt.Fprintf(os.Stderr, "  violation: %s assertion %s: %s inputs=%v\n", r.Harness, v.AssertID, v.Msg, v.Inputs)
-				continue
-			}
-			out, err := nat.run(rp)
-			if err != nil {
-				fail("%s: native replay of violation failed: %v", r.Harness, err)
-				continue
-			}
-			if nativeFailed(out, v.AssertID) {
-				confirmedViol++
-				violLines = append(violLines, fmt.Sprintf("VIOLATION property=%s replay=%s", id, rp))
+			if sp.NoNative {
+				acc.confirmedViol++
+				acc.violLines = append(acc.violLines, fmt.Sprintf("VIOLATION property=%s replay=%s", id, rp))
 				fmt.Fprintf(os.Stderr, "  violation: %s assertion %s: %s inputs=%v\n", r.Harness, v.AssertID, v.Msg, v.Inputs)
 			} else {
-				fail("%s: counterexample for assertion %s did not reproduce natively (encoding or stub error): %s [%s]", r.Harness, v.AssertID, rp, v.Msg)
+				ok, err := nat.confirms(rp, v.AssertID)
+				if err != nil {
+					fail("%s: native replay of violation failed: %v", r.Harness, err)
+					continue
+				}
+				if ok {
+					acc.confirmedViol++
+					acc.violLines = append(acc.violLines, fmt.Sprintf("VIOLATION property=%s replay=%s", id, rp))
+					fmt.Fprintf(os.Stderr, "  violation: %s assertion %s: %s inputs=%v\n", r.Harness, v.AssertID, v.Msg, v.Inputs)
+				} else {
+					fail("%s: counterexample for assertion %s did not reproduce natively (encoding or stub error): %s [%s]", r.Harness, v.AssertID, rp, v.Msg)
+				}
 			}
 			if k >= 4 {
 				break
 			}
 		}
-	}
-
-	// function inventory
-	type fc struct {
-		Name  string `json:"name"`
-		Calls int64  `json:"calls"`
-	}
-	var repoFns, depFns []fc
-	stdN := 0
-	for f, n := range funcs {
-		switch {
-		case strings.Contains(f, "zz_verif") || strings.Contains(f, ".Verif"):
-		case strings.Contains(f, modPath):
-			repoFns = append(repoFns, fc{strings.ReplaceAll(f, modPath+"/", ""), n})
-		case strings.Contains(f, "."):
-			first := f
-			if k := strings.Index(first, "/"); k >= 0 {
-				first = first[:k]
-			}
-			if strings.Contains(first, ".") && !strings.HasPrefix(f, "(") || (strings.HasPrefix(f, "(") && strings.Contains(strings.SplitN(f, "/", 2)[0], ".")) {
-				depFns = append(depFns, fc{f, n})
-			} else {
-				stdN++
-			}
-		}
-	}
-	sort.Slice(repoFns, func(a, b int) bool { return repoFns[a].Calls > repoFns[b].Calls })
-	sort.Slice(depFns, func(a, b int) bool { return depFns[a].Calls > depFns[b].Calls })
-	if len(repoFns) > 60 {
-		repoFns = repoFns[:60]
-	}
-	if len(depFns) > 30 {
-		depFns = depFns[:30]
-	}
-
-	level := s.Level
-	if level == "" {
-		level = "model_checking"
-	}
-	if len(samples) == 0 {
-		samples = append(samples, map[string]interface{}{"note": "no completed path sampled"})
-	}
-	ev := evidence{
-		PropertyID: id, Tier: tier, Seed: seed, Level: level, WallS: time.Since(t0).Seconds(), Violations: confirmedViol,
-		Assumptions: append(append([]string{}, s.Assumptions...), prefixAll("stub: ", s.Stubs)...),
-		Coverage: map[string]interface{}{
-			"states":                        completed,
-			"transitions":                   steps,
-			"traces_validated_against_impl": validated,
-			"samples":                       samples,
-			"evaluations":                   paths,
-			"distinct_nontrivial":           completed,
-			"rule":                          "one evaluation = one symbolic path (equivalence class of inputs driving the code down the same branches) explored by DFS over solver-checked branch decisions; a path is non-trivial when it ran to completion (or to a failed assertion) under a satisfiable path condition",
-			"exhaustive":                    len(machineryFail) == 0,
-			"harnesses":                     names,
-			"paths_total":                   paths,
-			"paths_completed":               completed,
-			"paths_infeasible":              infeasible,
-			"decisions":                     decisions,
-			"assertions_checked":            assertsChecked,
-			"queries":                       queries,
-			"queries_sat":                   sat,
-			"queries_unsat":                 unsat,
-			"queries_unknown":               unknown,
-			"solver_s":                      float64(solverNs) / 1e9,
-			"solver":                        solverName(cfg.Solver),
-			"functions_encoded_repo":        repoFns,
-			"functions_encoded_deps":        depFns,
-			"functions_encoded_stdlib":      stdN,
-			"bounds":                        s.Bounds,
-			"outside_claim":                 s.Outside,
-			"overrides":                     s.Overrides,
-			"unsupported_aborts":            unsupportedAll,
-			"known_findings_seen":           knownSeen,
-			"encoding_mismatches":           valMismatch,
-			"machinery_failures":            machineryFail,
-			"load_s":                        prog.LoadSec,
-			"cross_solver":                  crossNote,
-		},
-	}
-	os.MkdirAll(filepath.Join(verifRoot, "evidence"), 0o755)
-	eb, _ := json.MarshalIndent(ev, "", " ")
-	if err := os.WriteFile(filepath.Join(verifRoot, "evidence", id+".json"), eb, 0o644); err != nil {
-		fmt.Fprintln(os.Stderr, "gosym:", err)
-		return 2
-	}
-
-	for _, l := range knownLines {
-		fmt.Println(l)
-	}
-	for _, l := range violLines {
-		fmt.Println(l)
-	}
-	fmt.Printf("gosym: %s %s: harnesses=%d paths=%d completed=%d queries=%d (unsat %d, sat %d) solver=%.1fs validated=%d wall=%.1fs\n",
-		id, tier, len(names), paths, completed, queries, unsat, sat, float64(solverNs)/1e9, validated, time.Since(t0).Seconds())
-	if len(violLines) > 0 {
-		return 1
-	}
-	if len(machineryFail) > 0 {
-		for _, m := range machineryFail {
-			fmt.Fprintln(os.Stderr, "gosym: INCONCLUSIVE:", m)
-		}
-		return 2
 	}
 	return 0
 }
@@ -570,6 +603,7 @@ type native struct {
 	overlay   map[string]string
 	harnesses []string
 	tier      int
+	retries   int
 	dir       string
 	bin       string
 	built     bool
@@ -671,6 +705,22 @@ func (n *native) run(replay string) (string, error) {
 		return string(out), fmt.Errorf("native harness did not finish:\n%s", tail(string(out), 30))
 	}
 	return string(out), nil
+}
+
+// confirms replays a counterexample natively (several times when the harness
+// has native randomness) and reports whether the assertion fails natively too.
+func (n *native) confirms(replay, assertID string) (bool, error) {
+	tries := 1 + n.retries
+	for t := 0; t < tries; t++ {
+		out, err := n.run(replay)
+		if err != nil {
+			return false, err
+		}
+		if nativeFailed(out, assertID) {
+			return true, nil
+		}
+	}
+	return false, nil
 }
 
 func tail(s string, n int) string {
